@@ -117,11 +117,31 @@ def run(scn):
     else:
         port = LiteDRAMAXIPort(data_width=dw, address_width=24, id_width=1)
     cls = LiteDRAMDMAReader if kind == "reader" else LiteDRAMDMAWriter
-    dut = cls(port, fifo_depth=depth, fifo_buffered=d.get("buffered", False))
-    sim = Sim(dut, {"sys": 10000})
-    viol = Violations(sim)
+    core = scn.get("core")
     m = scn["mem"]
-    if ptype == "native":
+    if core:
+        # variant "core": the DMA engine sits on a port of the real core (crossbar + controller) with DramRef as DRAM
+        from ..corebench import core_host, CorePortView
+        box = {}
+
+        def attach(top, ports):
+            box["dut"] = cls(ports[0], fifo_depth=depth, fifo_buffered=d.get("buffered", False))
+            top.submodules.frontend = box["dut"]
+        tb, sim, viol, dram = core_host(core, Violations, attach)
+        dut = box["dut"]
+        port = tb.ports[0]
+        nb = port.data_width // 8
+        mem = CorePortView(sim, tb, dram, port)
+        amask = (1 << tb.amap.aw) - 1
+        for it in scn["items"]:
+            it["address"] &= amask
+    else:
+        dut = cls(port, fifo_depth=depth, fifo_buffered=d.get("buffered", False))
+        sim = Sim(dut, {"sys": 10000})
+        viol = Violations(sim)
+    if core:
+        pass
+    elif ptype == "native":
         mem = NativeMemSlave(sim, port, cmd_ready=m.get("cmd_ready"), max_out=m.get("max_out", 8), wl1=m.get("wl1", 1),
                              rl1=m.get("rl1", 3), extra=m.get("extra"), viol=viol)
     else:
@@ -150,11 +170,14 @@ def run(scn):
         snk = None
         agents = [drv, mem]
     for a in agents:
-        sim.add_agent("sys", a)
+        if a is not mem or not core:
+            sim.add_agent("sys", a)
     pats = (scn.get("ready") or []) + (m.get("cmd_ready") or []) + (m.get("ar_ready") or []) + (m.get("aw_ready") or []) + (m.get("w_ready") or [])
     stall = sum(a + b for a, b in pats) + 1
     n = len(items)
     cap = 500 + sum(it.get("delay", 0) for it in items) + n * (stall + max(m.get("extra") or m.get("r_lat") or [0]) + m.get("rl1", 3) + 10)
+    if core:
+        cap += 2000 + 60 * n
     need_quiet = 60 + max([b for a, b in pats] or [0]) + max(m.get("extra") or m.get("r_lat") or [0]) + 20
     cyc = 0
     quiet = 0
@@ -211,12 +234,26 @@ def run(scn):
                 viol.add("final_image", "address 0x%x holds %s, last pair written there carries 0x%x" % (a, "nothing" if got is None else "0x%x" % got, dta))
                 break
         stats["words"] = len(wl)
+    stats["core_variant_runs"] = 1 if core else 0
     return {"violations": viol.v, "stats": stats, "cycles": cyc, "sim_ps": sim.now, "digest": sim.digest(),
             "nontrivial": stats["words"] >= 2, "states": ["%s %s d%d" % (kind, ptype, depth)],
             "summary": {"kind": kind, "port": ptype, "depth": depth, "items": n, "cycles": cyc}}
 
 
 def gen(rng, tier, index):
+    scn = _gen(rng, tier, index)
+    if scn["dut"]["port"] == "native" and rng.random() < 0.15:
+        from .. import coregen
+        core, info = coregen.gen_core(rng, nports=1, nranks=1)
+        scn["core"] = core
+        scn["dut"]["dw"] = info["data_bytes"] * 8
+        if len(scn["items"]) > 150:
+            scn["items"] = scn["items"][:150]
+            scn["items"][-1]["last"] = 1
+    return scn
+
+
+def _gen(rng, tier, index):
     kind = rng.choice(["reader", "reader", "writer"])
     ptype = rng.choice(["native", "native", "axi"])
     dw = rng.choice([8, 32, 64, 128])
